@@ -288,19 +288,24 @@ def check_ret(ck, prog):
               "%s() returns LZMA_BUF_ERROR directly: lzma_code() asserts this cannot happen and would treat "
               "it as fatal" % f.name, key="RET:buf_error:" + f.name)
     # multi-call vli functions return BUF_ERROR for an empty buffer: streaming callers guard it
-    for fname, file, posv, sizev in (("index_decode", "index_decoder.c", "in_pos", "in_size"),
-                                     ("lzma_index_hash_decode", "index_hash.c", "in_pos", "in_size"),
-                                     ("index_encode", "index_encoder.c", "out_pos", "out_size")):
+    VLI = ("lzma_vli_decode", "lzma_vli_encode")
+    for fname, file, posv, sizev, callees in (
+            ("index_decode", "index_decoder.c", "in_pos", "in_size", VLI),
+            ("lzma_index_hash_decode", "index_hash.c", "in_pos", "in_size", VLI),
+            ("index_encode", "index_encoder.c", "out_pos", "out_size", VLI),
+            # lzma_index_hash_decode() itself returns LZMA_BUF_ERROR for an empty buffer: its streaming callers guard it
+            ("stream_decode", "stream_decoder.c", "in_pos", "in_size", ("lzma_index_hash_decode",)),
+            ("stream_decode_mt", "stream_decoder_mt.c", "in_pos", "in_size", ("lzma_index_hash_decode",))):
         f = prog.fn(fname, file)
         g = graph_of(prog, f)
         t = avail.Triple("$none", posv, sizev, True)
         orig = avail.elem_uses
 
-        def uses(tt, e):
+        def uses(tt, e, callees=callees):
             r = []
             if e is not None:
                 for c in ex.calls(e, into_refs=False):
-                    if c.get("fn") in ("lzma_vli_decode", "lzma_vli_encode"):
+                    if c.get("fn") in callees:
                         r.append(c)
             return r
         avail.elem_uses = uses
@@ -309,9 +314,10 @@ def check_ret(ck, prog):
         finally:
             avail.elem_uses = orig
         ck.ob("C04-RET", "vli-nonempty:" + fname, not bad and nuses > 0, common.where(f),
-              "%d multi-call lzma_vli_* call(s) in %s are made only with *%s < %s (so they cannot return "
-              "LZMA_BUF_ERROR)" % (nuses, fname, posv, sizev) if not bad else
-              "lzma_vli_* can be called with an empty buffer in %s: LZMA_BUF_ERROR would escape from a coder" % fname,
+              "%d %s call(s) in %s are made only with *%s < %s (so they cannot return "
+              "LZMA_BUF_ERROR)" % (nuses, "/".join(callees), fname, posv, sizev) if not bad else
+              "%s can be called with an empty buffer in %s(): LZMA_BUF_ERROR would escape from a coder, which lzma_code() "
+              "treats as a fatal error instead of waiting for more input" % ("/".join(callees), fname),
               key="RET:vli:" + fname)
     ck.floor("C04-RET", 80)
 
